@@ -237,6 +237,7 @@ def run(chk, facts):
     rule_r26(chk, facts)
     rule_r27(chk, facts)
     rule_r28(chk, facts)
+    rule_r29(chk, facts)
 
 
 def rule_r26(chk, facts, rule='C03-R26'):
@@ -372,4 +373,56 @@ def rule_r28(chk, facts, rule='C03-R28'):
                        'forward only' if bad is None else
                        '%s is a signed %d-bit variable that receives a sum of 32-bit values from the file (line %d): counts '
                        'like FFFFFFF3h make it negative and the seek goes backwards' % (bad[0], 32, bad[1]))
+    return n
+
+
+def rule_r29(chk, facts, rule='C03-R29'):
+    chk.rule(rule, 'core modules: inside a loop that runs over the length of a string, a store into a fixed-size local array '
+             'at a growing index lies behind a comparison of that index with a constant not larger than the array (or with '
+             'the length of the array\'s own contents)', min_instances=4)
+    from .c03_bounds import is_generator
+    P = facts.program('asl')
+    n = 0
+    for f in P.all_funcs():
+        if f.entry is None or is_generator(f.unit.name):
+            continue
+        arrs = {nm: t for nm, t in f.locals.items() if t.get('arr') and (t.get('size') or 0) >= 64}
+        if not arrs:
+            continue
+        for h, s0 in f.loops():
+            body = f.loop_body(h, s0)
+            conds = [f.blocks[b].get('cond') for b in body if f.blocks[b].get('cond') is not None]
+            if not any(any(isinstance(m, (list, tuple)) and m and m[0] == 'call' and callee_name(m) == 'strlen' for m in walk(c)) for c in conds):
+                continue
+            for b in body:
+                for j, (ln, ex) in enumerate(f.blocks[b]['elems']):
+                    for m in walk_own(ex):
+                        tgt = idx = None
+                        if is_assign(m) and nocast(m[2])[0] == 'i' and nocast(nocast(m[2])[1])[0] == 'l' and nocast(nocast(m[2])[1])[1] in arrs:
+                            tgt, idx = nocast(nocast(m[2])[1])[1], nocast(nocast(m[2])[2])
+                        if m[0] == 'call' and callee_name(m) in ('memset', 'memcpy') and m[2]:
+                            d = nocast(m[2][0])
+                            if d[0] == 'b' and d[1] == '+' and nocast(d[2])[0] == 'l' and nocast(d[2])[1] in arrs:
+                                tgt, idx = nocast(d[2])[1], nocast(d[3])
+                        if tgt is None:
+                            continue
+                        ivs = {tuple(x) for x in walk(idx) if isinstance(x, (list, tuple)) and len(x) == 2 and x[0] == 'l'}
+                        if not ivs:
+                            continue
+                        n += 1
+                        N = arrs[tgt]['arr'][0]
+
+                        def bounded(l, ivs=ivs, N=N, tgt=tgt):
+                            def own_len(e):
+                                return any(isinstance(y, tuple) and y and y[0] == 'call' and y[1] == ('fn', 'strlen') and y[2] and
+                                           nocast(y[2][0]) == ('l', tgt) for y in walk(e))
+                            return edge_has_atom(l, lambda a: a[0] == 'cmp' and a[1] in ('<', '<=') and any(
+                                isinstance(y, tuple) and y in ivs for y in walk(a[2])) and
+                                ((const_val(a[3]) is not None and const_val(a[3]) <= N) or own_len(a[3])))
+                        ok, w = f.guarded(b, j, bounded)
+                        chk.ob(rule, '%s:%s:%s[%s]@%d' % (f.unit.name, f.name, tgt, show(idx)[:20], ln), ok, f.loc(ln),
+                               'index compared with the array size' if ok else
+                               '%s[%d] is filled at the index %s inside a loop over a string of unbounded length and the index '
+                               'is never compared with the size of the array (path %s): a long enough line writes behind it' % (
+                                   tgt, N, show(idx), ' '.join(w[-4:])))
     return n
